@@ -25,6 +25,7 @@ func init() {
 			{ID: "R6", Desc: "package-level state is immutable after init and does not escape (T-FIELD/T-PURE)", Run: c18R6},
 			{ID: "R7", Desc: "data methods operate on the table named by the request (T-FLOW)", Run: c18R7},
 			{ID: "R8", Desc: "hygiene: no unsafe/cgo/linkname/reflective calls/build tags", Run: c18R8},
+			{ID: "R9", Desc: "no address of a loop-carried variable escapes from inside its loop (every escape would alias the same variable)", Run: c18R9},
 		},
 	})
 }
@@ -702,5 +703,55 @@ func c18R8(e *Engine) {
 	}
 	if bad == 0 {
 		e.pass("R8", "hygiene", "-", "no unsafe, cgo, go:linkname, reflective call/set or build-tagged file in the six packages (%d files)", e.files)
+	}
+}
+
+// c18R9: under the module's pre-1.22 loop semantics a range/for variable is ONE variable for the whole loop. Taking its
+// address (or capturing it) in every iteration and keeping those addresses makes all of them point at the last value –
+// e.g. every index description carrying the same index name. Detected on SSA: a heap variable allocated outside a loop,
+// reassigned inside it, whose address is also stored / captured inside that loop.
+func c18R9(e *Engine) {
+	n := 0
+	for _, fn := range e.all {
+		loops := naturalLoops(fn)
+		if len(loops) == 0 {
+			continue
+		}
+		instrs(fn, func(in ssa.Instruction) {
+			al, ok := in.(*ssa.Alloc)
+			if !ok || !al.Heap {
+				return
+			}
+			for _, body := range loops {
+				if body[al.Block()] {
+					continue // allocated per iteration: each address is distinct
+				}
+				assigned, escapes := false, ""
+				for _, r := range refsOf(al) {
+					if !body[r.Block()] {
+						continue
+					}
+					switch u := r.(type) {
+					case *ssa.Store:
+						if u.Addr == ssa.Value(al) {
+							assigned = true
+						} else if u.Val == ssa.Value(al) {
+							escapes = "stored at " + e.ipos(u)
+						}
+					case *ssa.MakeClosure:
+						escapes = "captured by a closure at " + e.ipos(u)
+					case *ssa.MakeInterface:
+						escapes = "boxed at " + e.ipos(u)
+					}
+				}
+				if assigned && escapes != "" {
+					n++
+					e.fail("R9", e.fname(fn)+":loop-variable-address:"+al.Comment, e.ipos(al), "the loop variable %q is a single variable for the whole loop (module language version < go1.22) and its address is %s in every iteration: all the retained pointers end up pointing at the value of the last iteration", al.Comment, escapes)
+				}
+			}
+		})
+	}
+	if n == 0 {
+		e.pass("R9", "no-escaping-loop-variable", "-", "no loop-carried variable has its address retained from inside its loop (%d functions scanned)", len(e.all))
 	}
 }
